@@ -420,7 +420,12 @@ func guardListing(c *Ctx) {
 		return
 	}
 	n := 0
-	for _, fi := range specQueryMethods(c) {
+	// the exported queries and the unexported helpers they share
+	listing := core.SortedSet(c.P.Reachable(specQueryMethods(c)...))
+	for _, fi := range listing {
+		if !strings.HasPrefix(fi.Name(), "Spec.") {
+			continue
+		}
 		info := c.info(fi)
 		ast.Inspect(fi.Decl.Body, func(nd ast.Node) bool {
 			outer, ok := nd.(*ast.RangeStmt)
@@ -448,7 +453,16 @@ func guardListing(c *Ctx) {
 					switch v := x.(type) {
 					case *ast.CallExpr:
 						callee := c.P.CalleeAny(fi, v)
-						if callee == nil || callee.FullName() != "fmt.Sprintf" || len(v.Args) != 3 {
+						// a naming callback handed to a shared helper: it receives the entry's own (method, path, operation)
+						if callee == nil {
+							if o := core.ObjOf(info, v.Fun); o != nil && c.P.Locals(fi).Params[o] && len(v.Args) >= 2 {
+								if core.ObjOf(info, v.Args[0]) != mKey || core.ObjOf(info, v.Args[1]) != pKey || len(v.Args) >= 3 && opVal != nil && core.ObjOf(info, v.Args[2]) != opVal {
+									bad = append(bad, "the naming callback receives ("+exprStr(v.Args[0])+", "+exprStr(v.Args[1])+", …) instead of (method, path, operation) of the same index entry")
+								}
+							}
+							return true
+						}
+						if callee.FullName() != "fmt.Sprintf" || len(v.Args) != 3 {
 							return true
 						}
 						if f, isC := core.ConstString(info, v.Args[0]); !isC || f != "%s %s" {
@@ -494,9 +508,10 @@ func guardListing(c *Ctx) {
 			return true
 		})
 	}
-	if n < 3 {
-		c.S.Undecided("C14", "GUARD-LISTING", "floor", "-", fmt.Sprintf("only %d nested loops over the operations index found (confirmed by hand: 3)", n))
+	if n < 1 {
+		c.S.Undecided("C14", "GUARD-LISTING", "floor", "-", "no nested loop over the operations index found below the exported queries (3 on the pinned tree)")
 	}
+	c.S.Note("GUARD-LISTING: %d nested loops over the operations index (3 on the pinned tree; fewer when listings share a helper)", n)
 	// ENC-FORMAT: what the queries format comes from the document (paths, methods, ids): it is an operand of the
 	// formatting call, never (part of) its format string — a '%' in a path would be read as a verb.
 	for _, fi := range specQueryMethods(c) {
@@ -763,6 +778,48 @@ func (c *Ctx) resolvedParamValue(fi *core.FuncInfo, v ast.Expr, at ast.Node, dep
 			}
 		}
 	}
+	// a join just before the statement: `if <v's $ref is not empty> { …; v = <resolved> }` followed by the use —
+	// the value is the ref-free one when the branch is skipped and the resolved one when it is taken
+	if blk, isBlk := c.parents(fi)[at].(*ast.BlockStmt); isBlk {
+		for i, st := range blk.List {
+			if st != at || i == 0 {
+				continue
+			}
+			ifs, isIf := blk.List[i-1].(*ast.IfStmt)
+			if !isIf || ifs.Else != nil || ifs.Init != nil {
+				break
+			}
+			// skipped branch: the negated condition says that the $ref of the value is empty
+			skippedOK := false
+			for _, cd := range core.SplitCond(ifs.Cond, true) {
+				if x, empty, ok := core.EmptyTest(info, cd); ok && empty {
+					ast.Inspect(resolveLocal(x), func(n ast.Node) bool {
+						if sel, ok := n.(*ast.SelectorExpr); ok && sel.Sel.Name == "Ref" && core.IsSpecType(info.TypeOf(sel), "Ref") {
+							if id := rootIdent(sel.X); id != nil && c.sameParamValue(fi, core.ObjOf(info, id), vo) {
+								skippedOK = true
+							}
+						}
+						return true
+					})
+				}
+			}
+			// taken branch: every top-level assignment to the value stores a resolved one
+			takenOK, assigns := true, 0
+			for _, bs := range ifs.Body.List {
+				as, isAs := bs.(*ast.AssignStmt)
+				if !isAs || len(as.Lhs) != 1 || len(as.Rhs) != 1 || core.ObjOf(info, as.Lhs[0]) != vo {
+					continue
+				}
+				assigns++
+				if !c.resolvedParamValue(fi, as.Rhs[0], as, depth+1) {
+					takenOK = false
+				}
+			}
+			if skippedOK && takenOK && assigns > 0 {
+				return true
+			}
+		}
+	}
 	// the value's reaching definitions (the last one before the statement, through one plain copy)
 	lastDef := func(o types.Object) *core.Def {
 		var best *core.Def
@@ -1021,13 +1078,17 @@ func guardOpFound(c *Ctx) {
 			// the flag of a (operation, found) pair
 			if o := core.ObjOf(info, e); o != nil && !cd.Neg {
 				for _, d := range c.P.Locals(fi).Defs[o] {
-					if d.Kind != core.DefMulti || d.Index != 1 {
+					if d.Kind != core.DefMulti || d.Index < 1 {
 						continue
 					}
+					// (operation, …, found) := lookup(…): the flag of a tuple whose first member is the operation
 					if call, ok := core.Unparen(d.Expr).(*ast.CallExpr); ok {
-						if tup, isTup := info.TypeOf(call).(*types.Tuple); isTup && tup.Len() == 2 && core.IsPointer(tup.At(0).Type()) && core.IsSpecType(tup.At(0).Type(), "Operation") {
+						if tup, isTup := info.TypeOf(call).(*types.Tuple); isTup && d.Index < tup.Len() && core.IsBool(tup.At(d.Index).Type()) && core.IsPointer(tup.At(0).Type()) && core.IsSpecType(tup.At(0).Type(), "Operation") {
 							return true
 						}
+					}
+					if d.Index != 1 {
+						continue
 					}
 					// op, ok := index[method][path]
 					if ix, ok := core.Unparen(d.Expr).(*ast.IndexExpr); ok && isOpIn(info, ix) {
